@@ -35,7 +35,7 @@ ITEMS = [
  ("g5", [], [1.5, "s"]), ("g6", ["neq", "contains"], "n"), ("g7", ["endswith", "all"], ["e1", "e2"]), ("g8", ["wide", "base64"], "A"),
  ("g9", [], "a\\\\*b"), ("h1", ["contains"], "c:\\x"), ("h2", ["cidr"], "10.0.0.0/7"), ("h3", ["re"], ["a.*b", "c?d"]), ("h4", [], []), ("h5", ["expand"], "x\\%a\\%"),
  ("Hashes", [], "MD5=aa11"), ("Hashes", ["contains", "all"], ["MD5=aa11", "sha1=bb22"]), ("Hashes", ["neq"], ["SHA1=cc33", "MD5=dd44"]),
- ("Hash", ["contains"], "IMPHASH=ee55"), ("", ["windash"], "-kw"), ("", ["cased"], "Kw"),
+ ("Hash", ["contains"], "IMPHASH=ee55"), ("", ["windash"], "-kw"), ("", ["cased"], "Kw"), ("h6", ["hour", "gte"], 22),
 ]
 KW = [["foo", "ba*r"], [1], ["single"], ["k1", 2]]
 out = ["----------------------------- MODULE RuleItems -----------------------------",
